@@ -223,6 +223,79 @@ def judge_c17(w, acc, order, model=None):
     acc.outcome("v2 batch, sub-ms input within floor/round" if sub_ms else "v2 batch, byte-identical to reference")
 
 
+def writer_histories(acc):
+    """The batch writer is a function of the batch alone: after a write that failed part-way - the sink raising at EVERY
+    write call index, or a record with an ill-typed key / value / header dying mid-record - writing a good batch (new or
+    read-back) gives exactly the bytes a fresh process gives.  Histories: good, (fail)*, good."""
+    import dataclasses as dc
+
+    from kio.records.readers import read_batch
+    from kio.records.writers import write_batch
+
+    goods = []
+    for nb in curated_batches()[:4]:
+        data, _ = refbatch.encode_new_batch({k: (v if k != "records" else [{kk: vv for kk, vv in r.items() if kk not in ("ts_us", "zone")} for r in v]) for k, v in nb.items()})
+        goods.append((kio_new_batch(nb), data))
+    prepared = [(read_batch(io.BytesIO(d)), None) for _, d in goods[:2]]
+    for i, (rb, _) in enumerate(prepared):
+        b = io.BytesIO()
+        write_batch(b, rb)
+        prepared[i] = (rb, b.getvalue())  # golden of the read-back batch = what the writer gives before any failure
+    subjects = goods + prepared
+
+    def bads(batch):
+        recs = batch.records
+        out = []
+        for pos in range(len(recs)):
+            for field, val in (("value", "not-bytes"), ("key", 12), ("headers", (("k", "v"),)), ("offset", "x")):
+                out.append(dc.replace(batch, records=recs[:pos] + (dc.replace(recs[pos], **{field: val}),) + recs[pos + 1:]))
+        return out
+
+    n = 0
+    for si, (batch, golden) in enumerate(subjects):
+        s = streams.WriteOnlySink()
+        try:
+            write_batch(s, batch)
+            ncalls = len(s.calls)
+        except Exception as e:  # noqa: BLE001 - judged by the buffer-context part; here only the histories are lost
+            ncalls = 0
+            acc.caps.append(f"writer histories of subject {si}: no stream failures, the writer does not run on a write-only sink ({exc_name(e)})")
+        failures = [("io", j) for j in range(ncalls)] + [("bad", b) for b in bads(batch)]
+        for kind, what in failures:
+            n += 1
+            acc.add("evaluations")
+            acc.add("states")
+            acc.add("distinct_nontrivial")
+            acc.add("writer_histories")
+            case = {"subject": si, "failure": [kind, what if kind == "io" else "ill-typed record member"]}
+            try:
+                if kind == "io":
+                    write_batch(streams.WriteOnlySink(fail_at=what), batch)
+                    raised = False
+                else:
+                    write_batch(io.BytesIO(), what)
+                    raised = False
+            except Exception:  # noqa: BLE001
+                raised = True
+            if kind == "io" and not raised:
+                acc.report(violation("C17", "history", "C17/history/stream-error-swallowed", "kio.records.writers:write_batch", case,
+                                     "the stream's error propagates", "no exception", (8, n)))
+                continue
+            for sj, (other, gold2) in enumerate(subjects):
+                b = io.BytesIO()
+                try:
+                    write_batch(b, other)
+                    got = b.getvalue()
+                except Exception as e:  # noqa: BLE001
+                    got = repr(e).encode()
+                if got != gold2:
+                    acc.report(violation("C17", "history", "C17/history/batch-bytes-depend-on-an-earlier-failed-write", "kio.records.writers:write_batch",
+                                         dict(case, then_subject=sj), gold2.hex()[:300], got.hex()[:300], (8, n)))
+                    break
+            else:
+                acc.outcome("batch writer unaffected by an earlier failed write")
+
+
 def explore_batches(k):
     tree = batch_tree()
     seen = set()
@@ -276,6 +349,9 @@ def run_c17(tier):
     run.rng.shuffle(items)
     for res in pmap(_task_c17, chunks(items, max(1, len(items) // 64))):
         run.merge(res)
+    hacc = Acc()
+    writer_histories(hacc)
+    run.merge(hacc.result())
     cacc = Acc()
     for n, nb in enumerate(curated_batches()):
         cacc.add("states")
